@@ -106,8 +106,14 @@ struct Explorer {
                     size_t off = idx.levels_offsets[r.level];
                     size_t cnt = idx.levels_offsets[r.level + 1] - off - 1;   // without the sentinel
                     if (r.level_size != cnt + 1) { run.violation(case_of(data_desc, mc::key_str(q)), "hook level size mismatch"); return; }
-                    size_t want = 0;
-                    for (size_t i = 0; i < cnt; ++i) if (idx.segments[off + i].key <= k) want = i;
+                    // rightmost segment of the level whose key is <= k (the level's keys were checked to be strictly increasing when
+                    // the index was built, so a binary search over them is an exact oracle)
+                    size_t want;
+                    {
+                        size_t lo_i = 0, hi_i = cnt;   // first index whose key is > k
+                        while (lo_i < hi_i) { size_t mid = (lo_i + hi_i) / 2; if (idx.segments[off + mid].key <= k) lo_i = mid + 1; else hi_i = mid; }
+                        want = lo_i == 0 ? 0 : lo_i - 1;
+                    }
                     const char *err = nullptr;
                     if (r.chosen != want) err = "level routing did not choose the rightmost segment with key <= query";
                     else if (r.lo > r.chosen) err = "scan started after the responsible segment";
@@ -127,6 +133,10 @@ struct Explorer {
         if constexpr (is_pgm<Index>::value) {
             constexpr size_t R = is_pgm<Index>::eps_rec;
             if constexpr (R > 0) {
+                for (size_t l = 0; l + 1 < idx.levels_offsets.size(); ++l) {   // keys of every level strictly increasing (sentinel excluded)
+                    size_t off = idx.levels_offsets[l], cnt = idx.levels_offsets[l + 1] - off - 1;
+                    for (size_t i = 1; i < cnt; ++i) if (!(idx.segments[off + i - 1].key < idx.segments[off + i].key)) { run.violation(case_of(data_desc, ""), "segment keys of level " + std::to_string(l) + " are not strictly increasing"); return; }
+                }
                 size_t m = idx.levels_offsets[1] - idx.levels_offsets[0] - 1;   // bottom level, without the sentinel
                 for (size_t l = 1; l + 1 < idx.levels_offsets.size(); ++l) {
                     size_t cnt = idx.levels_offsets[l + 1] - idx.levels_offsets[l] - 1;
